@@ -158,7 +158,11 @@ def normalize_slice(idx, dim):
             if stop is not None and start is not None and stop < start:
                 stop = start
         elif step < 0:
-            if start >= dim - 1:
+            if start < 0:
+                # ``indices`` reports a start before the first element as -1:
+                # nothing is selected.  Keeping -1 would re-read it as "last".
+                start = stop = 0
+            elif start >= dim - 1:
                 start = None
             if stop < 0:
                 stop = None
